@@ -65,6 +65,9 @@ SELECTORS = [
     "r.__class__", "str(r.n) == '3'", "r._source == 'src'", "r._generated.year > 2000",
     "any(x for x in r.l) and any(y == 'b' for y in r.l)", "any(x == 'a' for x in r.l) or r.n / r.m > 1",
     "any(x / 0 for x in r.nums)", "r.n and r.m", "r.port == 80 or r.f > 0.5",
+    # field-type constructors applied to values of the current record (a verdict must not stick to the call site)
+    "string(r.s) == 'abc'", "varint(r.n) > 2", "wstring(r.s) in ['a', 'ab']", "string(r.s) + 'x' == 'ax'",
+    "net.ipaddress(r.ip) in net.ipnetwork('10.0.0.0/8')", "any(string(x) == 'a' for x in r.l)",
 ]
 
 FAM_A = ["test/a", [["varint", "idx"], ["varint", "n"], ["varint", "m"], ["string", "s"], ["boolean", "b"],
